@@ -5,6 +5,8 @@ package main
 // and one token iteration of parseArgs.
 
 import (
+	"os"
+	"go/token"
 	"go/types"
 	"fmt"
 	"strings"
@@ -131,6 +133,17 @@ func parseFuncRule(c *Ctx, a *flAgg) {
 			continue // error paths: nothing more required
 		}
 		n++
+		// success is reported only when Func.Init accepted the symbol
+		initOK := false
+		for _, lt := range p.Lits {
+			if at := lt.Atom; lt.Pol && at.Op == OpBin && at.Tok == token.EQL && len(at.Args) == 2 && at.Args[1].isNilConst() && at.Args[0].String() == initCall.String() {
+				initOK = true
+			}
+		}
+		if !initOK {
+			okAll, why = false, "a function line is reported as parsed without an error although Func.Init may have refused the symbol (its error is dropped): the frame keeps an empty or half-initialised function"
+			continue
+		}
 		args := p.Cells["&"+cN+".Args"]
 		if args == nil || !(args.Op == OpExtract && args.ID == 0 && args.Args[0].calleeIs(stackPkg, "parseArgs")) {
 			okAll, why = false, "on success the arguments are not the result of parseArgs"
@@ -338,6 +351,10 @@ func parseArgsRule(c *Ctx, a *flAgg) {
 		if ad := loadOf(appended); ad != nil {
 			argCells = allocCells(p, ad.String())
 		}
+		// a value built by a helper and returned as a whole carries its fields
+		if appended != nil && len(argCells) == 0 && appended.Parts != nil {
+			argCells = appended.Parts
+		}
 		empty, _ := p.lit("(len(" + a1 + ") == 0)")
 		dots, haveDots := p.lit("bytes.Equal(" + a1 + ", threeDots)")
 		under, haveUnder := p.lit("bytes.Equal(" + a1 + ", underscore)")
@@ -404,6 +421,9 @@ func parseArgsRule(c *Ctx, a *flAgg) {
 				} else {
 					okQ = strings.Contains(inacc.String(), "HasSuffix")
 				}
+			}
+			if os.Getenv("PPCHECK_PA_DUMP") != "" {
+				fmt.Fprintf(os.Stderr, "PA appended=%v val=%v inacc=%v cells=%v\n", appended, val, inacc, argCells)
 			}
 			if appended == nil || !okVal || !okQ {
 				okAll, why = false, fmt.Sprintf("a numeric token must append Arg{Value: ParseUint(token without '?', 0, 64), IsInaccurate: token ends with '?'} (value ok=%v, '?' ok=%v)", okVal, okQ)
